@@ -424,7 +424,7 @@ Definition joint_run (w : world) (t : nat) (o : operand) :=
 
 (* Set(x) / SET(x): receiver == x -> nothing; dims differ -> panic;
    loop: s1 present -> s1.Set(s2) (the constant 0 when s2 is absent); else AT(idx).Set(s2) *)
-Fixpoint set_loop (fuel : nat) (w : world) (t : nat) (j : joint) : option world :=
+Fixpoint set_loop (fuel : nat) (w : world) (t : nat) (j : joint) : option (world * bool) :=
   if jok j then
     match fuel with
     | O => None
@@ -435,22 +435,24 @@ Fixpoint set_loop (fuel : nat) (w : world) (t : nat) (j : joint) : option world 
                          | Some (h', v', l) => Some (seth (setv w t v') (hset h' l (jval (js2 j))))
                          | None => None end
                end) with
-        | None => None
+        | None => Some (w, false)       (* AT panicked (key outside [0,n)): the loop stops HERE,
+                                           what was written so far stays *)
         | Some w1 => match joint_next w1 t j with
                      | None => None
                      | Some (w2, j') => set_loop f w2 t j'
                      end
         end
     end
-  else Some w.
-Definition set_vec (w : world) (t : nat) (o : operand) : option world :=
+  else Some (w, true).
+(* result: None = out of fuel; Some (w', true) = done; Some (w', false) = panicked in state w' *)
+Definition set_vec (w : world) (t : nat) (o : operand) : option (world * bool) :=
   match o with
-  | OS u => if Nat.eqb t u then Some w else
-            if negb (dim (getv w t) =? dim (getv w u)) then None else
+  | OS u => if Nat.eqb t u then Some (w, true) else
+            if negb (dim (getv w t) =? dim (getv w u)) then Some (w, false) else
             match joint_begin w t o with
             | None => None
             | Some (w1, j) => set_loop (jfuel w t o) w1 t j end
-  | OD d => if negb (dim (getv w t) =? Z.of_nat (length d)) then None else
+  | OD d => if negb (dim (getv w t) =? Z.of_nat (length d)) then Some (w, false) else
             match joint_begin w t o with
             | None => None
             | Some (w1, j) => set_loop (jfuel w t o) w1 t j end
@@ -600,13 +602,13 @@ Definition step (w : world) (o : op) : world * (Z * list Z) :=
       end
   | SetV t o =>
       match set_vec w t o with
-      | Some w' => (w', (K_OK, []))
-      | None => (w, (K_PANIC, []))
+      | Some (w', ok) => (w', (if ok then K_OK else K_PANIC, []))
+      | None => (w, (K_FUEL, []))
       end
   | SETV t u =>
       match set_vec w t (OS u) with
-      | Some w' => (w', (K_OK, []))
-      | None => (w, (K_PANIC, []))
+      | Some (w', ok) => (w', (if ok then K_OK else K_PANIC, []))
+      | None => (w, (K_FUEL, []))
       end
   | Reset t => (seth w (reset h (getv w t)), (K_OK, []))
   | ReverseOrder t => (setv w t (reverse_order (getv w t)), (K_OK, []))
